@@ -1,6 +1,7 @@
 (* C13 -- Local message types: the latest definition wins and slots are independent. *)
 From Coq Require Import NArith ZArith List Bool.
-From FitV Require Import Model.Values Model.Reflect Model.IO Model.Decode Model.Profile Gen.Consts Proofs.DecodeLemmas.
+From FitV Require Import Model.Values Model.Reflect Model.IO Model.Decode Model.Profile Gen.Consts Proofs.DecodeLemmas
+  Spec.FitSyntax Proofs.StreamDenoteDefs Proofs.StreamDenoteMain Proofs.StreamDenoteCor Proofs.StreamDenoteSlots.
 Import ListNotations.
 Local Open Scope N_scope.
 
@@ -38,9 +39,66 @@ Theorem C13_undefined_local_is_error : forall o b (compressed : bool) x s,
 Proof. exact undefined_local_is_error. Qed.
 Print Assumptions C13_undefined_local_is_error.
 
-(* PARTIAL: the lifting of C13_slots_independent to whole streams ("redefining l never changes how records of
-   l' <> l decode") is the composition of the three theorems above along the record loop; that induction over
-   streams is covered by the harness (reference semantics + metamorphic redefinition test), not yet by a theorem. *)
+(* ---------------------------------------------------------------------------------------------------------
+   On whole streams.  By C02_decode_denote the File Decode returns is the routed message list of the reference
+   semantics [denote]; the statements below are about [denote] (Spec/FitSyntax.v) and, for the headline, about
+   the decoder model directly. *)
+
+(* slots_independent: two runs whose environments differ only in slot l stay in step on every record that is not a
+   data record of l -- definitions of any local type (l included) and data records of all the others *)
+Theorem C13_slots_independent_stream : forall l rs a b a',
+  same_off l a b -> forallb (fun r => negb (uses_local l r)) rs = true -> denote_from a rs = Some a' ->
+  exists b', denote_from b rs = Some b' /\ same_off l a' b'.
+Proof. exact slots_independent_stream. Qed.
+Print Assumptions C13_slots_independent_stream.
+
+(* redefining local type l (any message, field list, sizes, byte order) never changes how later records of the
+   other local types decode: same messages, time reference and counts *)
+Theorem C13_redefinition_invisible : forall l rs0 be1 g1 f1 v1 x1 be2 g2 f2 v2 x2 rs s s1,
+  forallb (fun r => negb (uses_local l r)) rs = true ->
+  denote_from s (rs0 ++ RDef l be1 g1 f1 v1 x1 :: rs) = Some s1 ->
+  (forall sm, denote_from s rs0 = Some sm -> denote_record sm (RDef l be2 g2 f2 v2 x2) <> None) ->
+  exists s2, denote_from s (rs0 ++ RDef l be2 g2 f2 v2 x2 :: rs) = Some s2 /\
+    ss_msgs s1 = ss_msgs s2 /\ ss_ref s1 = ss_ref s2 /\ ss_unkm s1 = ss_unkm s2 /\ ss_unkf s1 = ss_unkf s2 /\
+    env_agree_off l (ss_env s1) (ss_env s2).
+Proof. exact redefinition_invisible. Qed.
+(* ... the same for the decoder model: the decoded Files are equal *)
+Theorem C13_redefinition_invisible_decoder : forall o h g l rs0 be1 g1' f1 v1 x1 be2 g2 f2' v2 x2 rs,
+  forallb (fun r => negb (uses_local l r)) rs = true ->
+  in_domain h g (rs0 ++ RDef l be1 g1' f1 v1 x1 :: rs) -> in_domain h g (rs0 ++ RDef l be2 g2 f2' v2 x2 :: rs) ->
+  decoded_file o h g (rs0 ++ RDef l be1 g1' f1 v1 x1 :: rs) = decoded_file o h g (rs0 ++ RDef l be2 g2 f2' v2 x2 :: rs).
+Proof. exact redefinition_invisible_decoder. Qed.
+Print Assumptions C13_redefinition_invisible_decoder.
+
+(* latest_def_wins: after a definition for l, and any records that do not redefine l, slot l holds that definition,
+   and a data record of l is decoded exactly as if it were the only definition there is *)
+Theorem C13_latest_def_wins_stream : forall s l be gmn fds devflag devs s' rs sb,
+  denote_record s (RDef l be gmn fds devflag devs) = Some s' ->
+  forallb (fun r => negb (defines_local l r)) rs = true ->
+  denote_from s' rs = Some sb ->
+  lookup_def (ss_env sb) l = Some (mk_sdef be gmn fds (devsize_of devflag devs)).
+Proof. exact latest_def_wins_after. Qed.
+Theorem C13_data_decoded_with_latest_def : forall s l be gmn fds devflag devs s' rs sb off pay dev,
+  denote_record s (RDef l be gmn fds devflag devs) = Some s' ->
+  forallb (fun r => negb (defines_local l r)) rs = true ->
+  denote_from s' rs = Some sb ->
+  match denote_data sb l off pay dev,
+        denote_data (mk_sstate [(l, mk_sdef be gmn fds (devsize_of devflag devs))]
+                       (ss_ref sb) (ss_msgs sb) (ss_unkm sb) (ss_unkf sb)) l off pay dev with
+  | Some x, Some y =>
+      ss_env x = ss_env sb /\ ss_ref x = ss_ref y /\ ss_msgs x = ss_msgs y /\ ss_unkm x = ss_unkm y /\ ss_unkf x = ss_unkf y
+  | None, None => True
+  | _, _ => False
+  end.
+Proof. exact data_decoded_with_latest_def. Qed.
+
+(* a data record of a local type without definition is outside the reference semantics (and an error of the decoder
+   in every state: C13_undefined_local_is_error above) *)
+Theorem C13_undefined_local_rejected : forall s l pay dev,
+  lookup_def (ss_env s) l = None -> denote_record s (RData l pay dev) = None.
+Proof. exact undefined_local_rejected. Qed.
+
+(* PARTIAL: nothing; the decoder-level statements hold inside the domain of C02_decode_denote (in_domain). *)
 Example C13_example : nth 3 (set_nth 5 (Some (mk_defmsg 5 true 20 [] [])) (repeat None 16)) None = None
                       /\ nth 5 (set_nth 5 (Some (mk_defmsg 5 true 20 [] [])) (repeat None 16)) None = Some (mk_defmsg 5 true 20 [] []).
 Proof. split; reflexivity. Qed.
